@@ -68,6 +68,37 @@ def stepOffsetsBelow (steps : List Nat) (L : Nat) : Option (List Nat) :=
   if steps.any (· = 0) then none else some ((steps.map (· - 1)).filter (· < L))
 
 mutual
+/-- all arrival models inside are well-formed (the only guards of `service_needed` and
+`steps_iter`) -/
+def RB.arrWF : RB → Bool
+  | .rbf a _ => decide a.WF
+  | .agg rs => RB.arrWFlist rs
+def RB.arrWFlist : List RB → Bool
+  | [] => true
+  | r :: rs => r.arrWF && RB.arrWFlist rs
+end
+
+mutual
+/-- guards of `job_cost_iter(delta)` -/
+def RB.itemsGuard : RB → Nat → Bool
+  | .rbf a c, d => c.itemsGuard (a.N d)
+  | .agg rs, d => RB.itemsGuardList rs d
+def RB.itemsGuardList : List RB → Nat → Bool
+  | [], _ => true
+  | r :: rs, d => r.itemsGuard d && RB.itemsGuardList rs d
+end
+
+mutual
+/-- guards of `least_wcet_in_interval(delta)` -/
+def RB.leastGuard : RB → Nat → Bool
+  | .rbf a c, d => c.leastGuard (a.N d)
+  | .agg rs, d => RB.leastGuardList rs d
+def RB.leastGuardList : List RB → Nat → Bool
+  | [], _ => true
+  | r :: rs, d => r.leastGuard d && RB.leastGuardList rs d
+end
+
+mutual
 def RB.WF : RB → Prop
   | .rbf a c => a.WF ∧ c.WF
   | .agg rs => RB.WFlist rs
